@@ -145,3 +145,22 @@ def classify_c11(history, at, ev, trace):
         if earlier and ev["same"] == 0:
             return "A19/router-recompile-renumbers-slots"
     return None
+
+
+def classify_c05(prog, text, pc, why):
+    """A3 (optimiser deletes every store of a cancelled slot) shows up statically as a height mismatch / wrong retsub height
+    in texts compiled with slot optimisation; recognised by the same trigger as for C01/C03."""
+    import pipeline
+    st = text.get("_st", {})
+    if pipeline._opt_on(st) and not prog.get("big") and (why.startswith("height") or why in ("retsub-height", "underflow", "type")):
+        r = pipeline.compile_all([(prog, [dict(st, ss=False)])])[0][0]
+        if "teal" in r and a3_trigger(r["teal"], [v["slot"] for v in prog.get("vars", []) if v.get("slot", -1) >= 0]):
+            return "A3/optimizer-deletes-every-store-of-cancelled-slot"
+    return None
+
+
+def classify_c04(what, text, why):
+    """A20: While / For are accepted below program version 4 and emit backward branches"""
+    if why == "backward-branch-before-v4" and text["version"] < 4:
+        return "A20/loops-emit-backward-branches-below-version-4"
+    return None
